@@ -76,9 +76,16 @@ def theValue (args : List Arg) : Arg :=
   | [a] => a
   | _ => .bytes (args.map Arg.assemble).flatten
 
+/-- the byte string an opcode written as an operand stands for: the number opcodes stand for their number -/
+def opOperand (c : Nat) : Option Bytes :=
+  if c = 0 then some []
+  else if 0x51 ≤ c ∧ c ≤ 0x60 then some [UInt8.ofNat (c - 0x50)]
+  else if c = 0x4f then some [0x81]
+  else none
+
 /-- the byte string a token places on the stack, if it is a push -/
 def tokOperand : Tok → Option Bytes
-  | .op _ => none
+  | .op c => opOperand c
   | .int n => some (Model.serialize n)
   | .hex d => some d
   | .sub body => some (compileToks body)
@@ -88,7 +95,7 @@ def operandsOf (args : List Arg) : Option (List Bytes) :=
   match args with
   | [.script body] => body.mapM tokOperand
   | _ => args.mapM (fun a => match a with
-      | .op _ => none
+      | .op c => opOperand c
       | a => some a.toBytes)
 
 -- ---------------------------------------------------------------------------------------------
@@ -124,19 +131,18 @@ def secp256k1P : Nat := 2 ^ 256 - 2 ^ 32 - 977
 -- addresses
 
 def p2pkhSpk (h : Bytes) : Bytes := [0x76, 0xa9, 0x14] ++ h ++ [0x88, 0xac]
-def p2shSpk (h : Bytes) : Bytes := [0xa9, 0x14] ++ h ++ [0x87]
 
 def isBlank (c : UInt8) : Bool := c.toNat == 32 || (9 ≤ c.toNat && c.toNat ≤ 13)
 /-- white space around a Base58 string is not part of it -/
 def trimBlanks (s : Bytes) : Bytes := ((s.dropWhile isBlank).reverse.dropWhile isBlank).reverse
 
-/-- Base58Check address → scriptPubKey: version 0 = pay to public key hash, version 5 = pay to script hash -/
+/-- Base58Check address → scriptPubKey: version byte 0 followed by a 20-byte hash = pay to public key hash (the only
+    kind of address the transform is defined for) -/
 def addrToSpk (hf : HashFns) (addr : Bytes) : Option Bytes :=
   match base58CheckDecode hf.hash256 (trimBlanks addr) with
   | some (ver :: h) =>
     if h.length != 20 then none
     else if ver == 0 then some (p2pkhSpk h)
-    else if ver == 5 then some (p2shSpk h)
     else none
   | _ => none
 
@@ -261,7 +267,7 @@ def tfSpec (hf : HashFns) (name : String) (args : List Arg) : Option Res :=
       | some [h, pk, sig] =>
         if h.length != 32 then .reject
         else if pk.length == 32 then
-          (if (Crypto.parseXOnly pk).isNone then .reject else .int (if Crypto.schnorrVerify pk h sig then 1 else 0))
+          (if sig.length != 64 || (Crypto.parseXOnly pk).isNone then .reject else .int (if Crypto.schnorrVerify pk h sig then 1 else 0))
         else if (Crypto.parsePubKey pk).isNone then (if wellFormedKey pk then .int 0 else .reject)
         else .int (if Crypto.ecdsaVerify pk sig h then 1 else 0)
       | _ => .reject)
@@ -269,7 +275,7 @@ def tfSpec (hf : HashFns) (name : String) (args : List Arg) : Option Res :=
       | some [h, pk, sig] =>
         if h.length != 32 then .reject
         else if pk.length == 32 then
-          (if (Crypto.parseXOnly pk).isNone then .reject else .int (if Crypto.schnorrVerify pk h sig then 1 else 0))
+          (if sig.length != 64 || (Crypto.parseXOnly pk).isNone then .reject else .int (if Crypto.schnorrVerify pk h sig then 1 else 0))
         else match Crypto.parsePubKey pk with
           | none => if wellFormedKey pk then .int 0 else .reject
           | some q =>
